@@ -1,6 +1,7 @@
 //! ldap3 verification harness: runs the real code (current /repo working tree, `--cfg ldap3_verif`)
 //! on generated inputs and prints canonical observations, one per line (see out.rs).
 mod fmtx;
+mod gen;
 mod lanes;
 mod out;
 mod rng;
